@@ -295,6 +295,19 @@ func runQueryWire(c *Ctx, pr *PropertyRun, prop, pkg string) {
 	urlParseRule(c, pr, prop, nil)
 	// ... written and read by an inverse pair (shared with C16.pairs)
 	c16Pairs(c, pr, prop, func(what string) bool { return what == "href" })
+	// per-element holders of the codecs are fresh per element
+	freshHolderRule(c, pr, prop)
+	// every conformant document gets as far as the typed decoder
+	decodeRequestTable(c, pr, prop)
+	if prop == "C09" {
+		unsignedElementsRule(c, pr, prop)
+	}
+	// the bytes of a request document are not recycled while the request
+	// still refers to them (shared with C18.upload)
+	pool := NewRule(prop, prop+".pooled-body", "an object returned to a sync.Pool is not referred to by a value the function returns or stores: a request body aliasing a pooled buffer is overwritten by the next request built in the process (E4)")
+	pr.Rules = append(pr.Rules, pool)
+	pooledObjectsRule(c, pool)
+	pool.Note("expected count on the current tree: 0 sync.Pool.Put sites in the library; the rule's firing is exercised by the seeds C18-5 and C09-11")
 
 	// ---- round trip
 	rt := NewRule(prop, prop+".roundtrip", "for every query within the bounds, the value the server's backend receives equals the value the caller handed to the client: decode o encode = id at struct level, both codecs interpreted from SSA (E2)")
